@@ -81,6 +81,14 @@ STRENGTHEN = {
  "C17-r6m2": "statistics on arrays whose non-dimension coordinates (lon, lat, scalar time) have no attributes added to C17",
  "C18-r6m1": "histories in which the variable is replaced by its own energy form (values and the attributes stamped on it), then observed; values compared",
  "C20-r6m1": "two boxes apart along both axes (diagonal in the freq–dir plane) added to the C20 operations",
+ "C01-r7m1": "objects with a history (gen.primed): the same Python object held other axes / other energy when its accessor first served the statistics and was edited in place through coords[...] = / ds[efth] = (C01, C08, C16)",
+ "C03-r7m2": "the C03 spy precedes one native call in two by a call on another bin count and a call on another grid shape with the SAME bin count (static tables of the C routine must not leak between calls)",
+ "C08-r7m1": "objects with a history (gen.primed) before interp / interp_like / rotate / regrid_spec in C08",
+ "C16-r7m1": "objects with a history (gen.primed) before smooth in C16",
+ "C06-r7m1": "float32 datasets whose spectral dimensions are the slowest in memory (strided (freq, dir) blocks that need no dtype conversion) added to C06",
+ "C11-r7m1": "direction axes stored in no particular order (shuffled) for the Funwave writer in C11",
+ "C11-r7m2": "the written WW3 file is loaded into memory with plain xarray and converted twice with from_ww3: both conversions and the native dataset afterwards must agree (C11)",
+ "C13-r7m1": "paths that first held other files of the format (one case in three) and an Obscape file rewritten in place must be read as they are now (C13)",
  "C20-m1": "whole-map timeout in pmap: a hang inside native code is reported as a termination failure and the native sub-check still runs (C20)",
 }
 MANUAL_LATER = {  # re-runs done directly with tools/seeded.py (not in a batch log)
